@@ -222,6 +222,21 @@ def run(tier: str = "quick", seed: int = 0) -> dict:
                 back.detach()
             except Exception as e:
                 fail(f"{fmt} index-based sources: raised {type(e).__name__}: {e!s:.100}")
+    # loading a dump into an EMPTY registry gives every source the index it had when the dump was taken (the aligned case of KF-C04-source-index-shift)
+    evals += 1
+    before = Source.list_registered_sources(True)
+    dump = Source.all_as_dict()
+    saved_tables = (Source._sources, Source._source_idx_to_source)
+    try:
+        Source.clear_registry()
+        Source.load_serialized_sources(dump)
+        after = Source.list_registered_sources(True)
+        if len(after) != len(before) or any(a != b or a.source_registry_id != i for i, (a, b) in enumerate(zip(after, before))):
+            fail(f"load_serialized_sources(all_as_dict()) into an empty registry: indices differ ({len(before)} sources)")
+    except Exception as e:
+        fail(f"load_serialized_sources(all_as_dict()) into an empty registry raised {type(e).__name__}: {e!s:.100}")
+    finally:
+        Source._sources, Source._source_idx_to_source = saved_tables
     # a failed call with options must not disturb the next round trip (C16 states the reset; here its effect on the trip)
     for fmt, (ser, de) in FORMATS.items():
         evals += 1
@@ -255,7 +270,7 @@ def run(tier: str = "quick", seed: int = 0) -> dict:
             fail(f"fresh process: id/content_id/re-serialization differ: {r}")
     n.detach()
     return {"evaluations": evals, "distinct_nontrivial": len(distinct),
-            "rule": "5 trees covering every representable property kind (unicode, 64-bit ints, floats, bools, None, enums, paths, literals, tuples, optionals, non-comparable), shared subtrees, falsy nodes x 10 origin kinds (code, XML, generated, multi from tuple / list / merge, entire source, the No* singletons) x 4 formats x {default, SORT_KEYS} x {all originals alive, none alive, only descendants alive}; collision-suffixed ids with twins dropped; index-based sources after load_serialized_sources (incl. the first registered source); a fresh process; compared position by position (class, id, content_id, every field value and type, origin, singletons, sharing, registration); distinct = (tree, format, options, liveness)",
+            "rule": "5 trees covering every representable property kind (unicode, 64-bit ints, floats, bools, None, enums, paths, literals, tuples, optionals, non-comparable), shared subtrees, falsy nodes x 10 origin kinds (code, XML, generated, multi from tuple / list / merge, entire source, the No* singletons) x 4 formats x {default, SORT_KEYS} x {all originals alive, none alive, only descendants alive}; collision-suffixed ids with twins dropped; index-based sources after load_serialized_sources (incl. the first registered source), a dump loaded into an emptied registry keeps every index; a fresh process; compared position by position (class, id, content_id, every field value and type, origin, singletons, sharing, registration); distinct = (tree, format, options, liveness)",
             "samples": samples, "failures": failures, "bound": "5 trees, 4 formats"}
 
 
